@@ -354,3 +354,34 @@ def check_table(rep: Report, ctx: Ctx, rule: str, table: dict,
                    args=tuple(abbr(a) for a in args), must=must,
                    may=[] if may == "*" else may, any_guard=may == "*",
                    why=why)
+
+
+_MUTATORS = {"add", "update", "discard", "remove", "clear", "pop", "append",
+             "extend", "insert", "difference_update", "intersection_update",
+             "symmetric_difference_update", "setdefault", "popitem", "sort",
+             "reverse"}
+
+
+def mutated_locals(fi: FuncInfo, expr: ast.AST) -> list[tuple[str, ast.AST]]:
+    """Local names read by ``expr`` that the function also mutates in place
+    (method call of a mutator, augmented assignment, item store): a role
+    expression describes such a name by its definition only, so an
+    obligation on a *set / list that is computed once* has to ask for this
+    separately."""
+    names = {n.id for n in ast.walk(expr) if isinstance(n, ast.Name)
+             and isinstance(n.ctx, ast.Load)}
+    out: list[tuple[str, ast.AST]] = []
+    for st in ast.walk(fi.node):
+        if isinstance(st, ast.Call) and isinstance(st.func, ast.Attribute) \
+                and isinstance(st.func.value, ast.Name) \
+                and st.func.value.id in names and st.func.attr in _MUTATORS:
+            out.append((st.func.value.id, st))
+        elif isinstance(st, ast.AugAssign) and isinstance(
+                st.target, ast.Name) and st.target.id in names:
+            out.append((st.target.id, st))
+        elif isinstance(st, (ast.Assign, ast.AugAssign)):
+            tg = st.targets[0] if isinstance(st, ast.Assign) else st.target
+            if isinstance(tg, ast.Subscript) and isinstance(
+                    tg.value, ast.Name) and tg.value.id in names:
+                out.append((tg.value.id, st))
+    return out
